@@ -140,6 +140,8 @@ BinaryCalls(r) ==
                      p \in JoinPreds(Cols(r) \cup (IF IsErr(OperandTree(n)) THEN {} ELSE Cols(OperandTree(n))))}
                  : n \in AllOperands})
            \cup {[f |-> "joinl", lhs |-> n] : n \in {"T2", "T3pa", "T3ss", "T2dd"}}
+           \* Join(True).partial(operand, is_lhs=True).apply(r): r is the target, the operand the fixed LEFT side
+           \cup {[f |-> "pjoinl", lhs |-> n] : n \in {"T2", "T3pa", "T2dd"}}
            \cup {[f |-> "chain", rhs |-> n] : n \in AllOperands}
            \cup {[f |-> "chainl", lhs |-> n] : n \in {"T3", "T3ss", "T3pa"}}
 
@@ -148,6 +150,7 @@ CallResult(c, r) ==
       [] c.f = "getitem" -> Err("TypeError")
       [] c.f = "join"  -> Bind(OperandTree(c.rhs), LAMBDA o : JoinRel(r, o, c.p, TRUE, FALSE))
       [] c.f = "joinl" -> Bind(OperandTree(c.lhs), LAMBDA o : JoinRel(o, r, PLit(TRUE), TRUE, FALSE))
+      [] c.f = "pjoinl" -> Bind(OperandTree(c.lhs), LAMBDA o : JoinRelL(o, r, PLit(TRUE), TRUE, FALSE))
       [] c.f = "joinself" -> JoinRel(r, r, PLit(TRUE), TRUE, FALSE)
       [] c.f = "chain" -> Bind(OperandTree(c.rhs), LAMBDA o : ApplyBinary(ChainOp, r, o))
       [] c.f = "chainl" -> Bind(OperandTree(c.lhs), LAMBDA o : ApplyBinary(ChainOp, o, r))
@@ -158,7 +161,7 @@ CommonCols(c1, c2) == {c \in c1 \cap c2 : IsKey(c)}
 CallRows(c, r, rows) ==
     CASE c.f = "un" -> ApplyOp(c.op, rows)
       [] c.f = "join"  -> JoinRows(rows, OperandRows(c.rhs), CommonCols(Cols(r), Cols(OperandTree(c.rhs))), c.p)
-      [] c.f = "joinl" -> JoinRows(OperandRows(c.lhs), rows, CommonCols(Cols(r), Cols(OperandTree(c.lhs))), PLit(TRUE))
+      [] c.f \in {"joinl", "pjoinl"} -> JoinRows(OperandRows(c.lhs), rows, CommonCols(Cols(r), Cols(OperandTree(c.lhs))), PLit(TRUE))
       [] c.f = "joinself" -> JoinRows(rows, rows, CommonCols(Cols(r), Cols(r)), PLit(TRUE))
       [] c.f = "chain" -> rows \o OperandRows(c.rhs)
       [] c.f = "chainl" -> OperandRows(c.lhs) \o rows
@@ -237,7 +240,7 @@ NoOpIdentity == [][(hist' # hist /\ IsNoOpCall(hist'[Len(hist')], rel)) => rel' 
 RawStep(c, t) ==
     CASE c.f = "un"    -> Un(c.op, t)
       [] c.f = "join"  -> Bin(JoinOp(c.p, CommonCols(Cols(t), Cols(OperandTree(c.rhs)))), t, OperandTree(c.rhs))
-      [] c.f = "joinl" -> Bin(JoinOp(PLit(TRUE), CommonCols(Cols(t), Cols(OperandTree(c.lhs)))), OperandTree(c.lhs), t)
+      [] c.f \in {"joinl", "pjoinl"} -> Bin(JoinOp(PLit(TRUE), CommonCols(Cols(t), Cols(OperandTree(c.lhs)))), OperandTree(c.lhs), t)
       [] c.f = "joinself" -> Bin(JoinOp(PLit(TRUE), CommonCols(Cols(t), Cols(t))), t, t)
       [] c.f = "chain" -> Bin(ChainOp, t, OperandTree(c.rhs))
       [] c.f = "chainl" -> Bin(ChainOp, OperandTree(c.lhs), t)
